@@ -344,3 +344,18 @@ def rules(ctx):
     _B.prep_reset(ctx, "C01.prep-reset")
     from . import c06 as _c06
     _c06.fock_outcome(ctx, "C01.fock-outcome")
+    # 'the same physics on every simulator' fails with ANY defect of one simulator: the structural clauses of C05 (targets only),
+    # C06 (measurement update, units), C07 (physical states) and C08 (register shape) that live in the backend files are part of C01
+    from . import c06 as _c6, c07 as _c7, c08 as _c8, common_gauss as _G
+    ctx.shared(_G.footprint, "C01.gauss-footprint")
+    ctx.shared(_B.bosonic_footprint, "C01.bosonic-footprint")
+    ctx.shared(_B.mode_routing, "C01.mode-routing")
+    ctx.shared(_c6.gain, "C01.cond-update")
+    ctx.shared(_c6.amplitude_units)
+    ctx.shared(_c6.units)
+    ctx.shared(_c7.weights_normalised)
+    ctx.shared(_c7.kraus_complete)
+    ctx.shared(_c7.hermitian_outer)
+    ctx.shared(_c8.register_shape, "C01.register-shape")
+    ctx.shared(_c8.remap_guard)
+    ctx.shared(_c8.remap_snapshot)
